@@ -197,7 +197,15 @@ def compile_one(args):
 def run(tier, seed):
     res = Result("C20", tier, seed)
     lean = lean_obligations("C20")
-    build_runner(RUNNER)
+    harness_errors = None
+    try:
+        build_runner(RUNNER)
+    except BuildError as e:
+        # the programs below only need the crate's rlib, which cargo built before it got to the runner: if only the runner fails
+        # to compile (something the API offered is gone), the table is still checked, cell by cell
+        if not getattr(e, "harness_only", False):
+            raise
+        harness_errors = getattr(e, "errors", [])
     deps = os.path.join(HARNESS, "target-nightly", "debug", "deps")
     rlibs = sorted(glob.glob(os.path.join(deps, "libdryoc-*.rlib")), key=os.path.getmtime)
     if not rlibs:
@@ -273,10 +281,12 @@ def run(tier, seed):
         elif want == "permit" and compiled and ran is not None and ran != 0:
             res.violations.append({"kind": "predicate", "line": line, "answers": answers, "why": "a permitted program faulted at run time (exit %s)" % ran})
         elif want == "permit" and primary and not compiled:
-            # the API lost something it offered: not a safety violation, but the table (model) no longer matches the code
-            res.corr_breaks.append({"line": line, "answers": answers})
+            # "the corresponding permitted programs compile and run": the control program of a permitted cell is rejected by the compiler
+            res.violations.append({"kind": "predicate", "line": line, "answers": answers, "why": "the control program of a cell the type-state table permits no longer compiles (%s)" % ", ".join(codes[:3])})
         elif want not in ("permit", "reject"):
             res.corr_breaks.append({"line": line, "answers": answers})
+    if harness_errors is not None:
+        res.corr_breaks.append({"line": "runner-build", "answers": {"compiler_errors": harness_errors, "note": "the crate compiles, the runner does not"}})
     res.extra["exhaustive"] = True
     res.extra["programs"] = len(jobs)
     shutil.rmtree(outdir, ignore_errors=True)
